@@ -100,6 +100,8 @@ m("C07-deletenode-does-not-erase", "C07", "actions/add_delete_node.py",
   "        if self.pixels is not None:\n            self.tracks.set_pixels(self.pixels, 0)", "        if self.pixels is not None and False:\n            self.tracks.set_pixels(self.pixels, 0)")
 m("C07-paint-node-uses-last-group", "C07", "user_actions/user_update_segmentation.py",
   "np.concatenate([pixels[dim] for pixels, _ in updated_pixels])", "np.concatenate([pixels[dim] for pixels, _ in updated_pixels[-1:]])")
+m("C07-updatenodeseg-inverse-keeps-added", "C07", "actions/update_segmentation.py",
+  "            added=not self.added,", "            added=self.added,")
 m("C07-get-pixels-wrong-frame", "C07", "data_model/tracks.py",
   "        loc_pixels = np.nonzero(self.segmentation[time] == node)", "        loc_pixels = np.nonzero(self.segmentation[min(time + 1, len(self.segmentation) - 1)] == node)")
 # ----------------------------------------------------------------------------- C08
